@@ -114,8 +114,16 @@ def rdr (args : List String) (tOf : Flags → Option TCfg := fun _ => some realT
           | some i, .nextRow => r.isReader && outLineSize t i r.flags i.width > 4194304
           | some i, .readRow => r.isReader && outLineSize t i r.flags i.width > 4194304
           | _, _ => false
+        -- the list-based `expandPass` costs about (pixels x buffer length) steps: whole-frame calls on big interlaced
+        -- images are answered `tooslow` (counted by the harness as outside the compared domain, never as agreement)
+        let slow (r : R) (op : Op) : Bool :=
+          match r.dec.info, op with
+          | some i, .nextFrame _ => r.isReader && i.interlaced && i.width * i.height * (outLineSize t i r.flags i.width * i.height) > 1073741824
+          | _, _ => false
         let (r, res) := opl.foldl (fun (acc : R × List String) op =>
-            if big acc.1 op then (acc.1, acc.2 ++ ["toolarge"])
+            if acc.2.getLast? == some "tooslow" then acc
+            else if big acc.1 op then (acc.1, acc.2 ++ ["toolarge"])
+            else if slow acc.1 op then (acc.1, acc.2 ++ ["tooslow"])
             else let (r', x) := Reader.step cfg t acc.1 op; (r', acc.2 ++ [resStr x])) (r0, [])
         s!"{" ".intercalate res} | {infoStr r.dec.info} | rem={r.remaining} caf={if r.sub.caf then 1 else 0} fin={if r.finished then 1 else 0}"
     | _, _, _, _, _, _ => "bad-op"
